@@ -24,6 +24,7 @@ import (
 	"runtime/debug"
 	"sort"
 	"strings"
+	"sync"
 	"time"
 
 	"fortio.org/log"
@@ -52,7 +53,8 @@ const (
 
 var c13Prelude = "x = 5; y = 2; t = true; u = false; arr = [1, 2, 3]; cnt = 0; r = 0\n" +
 	"g = func() { cnt = cnt + 1; println(\"g\", cnt); cnt }\n" +
-	"f = func(a) { a }"
+	"f = func(a) { a }\n" +
+	"f2 = func(a, b) { [a, b] }"
 
 const c13Probe = `println("probe", x, y, cnt, r)`
 
@@ -66,7 +68,23 @@ type c13Op struct {
 	Prog []any    `json:"prog,omitempty"`
 	Out  []any    `json:"out,omitempty"`
 	Feat string   `json:"feat,omitempty"`
+	Kind string   `json:"kind,omitempty"` // op "fail": error | panic | parse | timeout
 }
+
+// c13In is one REPL input of a session; Fail names the way an unrelated failing input fails ("" = ordinary input).
+type c13In struct{ Src, Fail string }
+
+var c13FailSrc = map[string]string{
+	"error":   `error("boom", x)`,
+	"panic":   `func rr(n) { rr(n + 1) }; rr(0)`, // runaway recursion: the depth guard panics, repl.EvalOne recovers and resets the state
+	"parse":   `x = (`,
+	"timeout": `for true {}`,
+}
+
+const (
+	c13PanicDepth  = 60                    // MaxDepth while the runaway recursion runs (restored afterwards)
+	c13FailTimeout = 40 * time.Millisecond // deadline of the `for true {}` input only
+)
 
 type c13Case struct {
 	ID     int
@@ -84,30 +102,84 @@ func c13RenderDef(op c13Op) string {
 // macro calls); false: the hand-substituted session (no definitions, the expected trees rendered).
 // Both have the same number of inputs (an input holding only definitions corresponds to an empty input).
 func c13Inputs(ops []c13Op, layout int, macro bool) []string {
-	var inputs []string
+	var res []string
+	for _, in := range c13Ins(ops, layout, macro) {
+		res = append(res, in.Src)
+	}
+	return res
+}
+
+func c13Ins(ops []c13Op, layout int, macro bool) []c13In {
+	var inputs []c13In
 	var pending []string
+	flush := func() { // definitions waiting for the next program become an input of their own (a failing input comes first)
+		if len(pending) > 0 {
+			if macro {
+				inputs = append(inputs, c13In{Src: strings.Join(pending, "")})
+			} else {
+				inputs = append(inputs, c13In{})
+			}
+			pending = nil
+		}
+	}
 	for _, op := range ops {
 		switch op.Op {
 		case "def":
 			if layout == 1 {
 				if macro {
-					inputs = append(inputs, c13RenderDef(op))
+					inputs = append(inputs, c13In{Src: c13RenderDef(op)})
 				} else {
-					inputs = append(inputs, "")
+					inputs = append(inputs, c13In{})
 				}
-			} else if macro {
+			} else {
 				pending = append(pending, c13RenderDef(op)+";\n")
 			}
+		case "fail":
+			flush()
+			inputs = append(inputs, c13In{Src: c13FailSrc[op.Kind], Fail: op.Kind})
 		case "exp":
 			if macro {
-				inputs = append(inputs, strings.Join(pending, "")+renderProgram(op.Prog))
+				inputs = append(inputs, c13In{Src: strings.Join(pending, "") + renderProgram(op.Prog)})
 			} else {
-				inputs = append(inputs, renderProgram(op.Out))
+				inputs = append(inputs, c13In{Src: renderProgram(op.Out)})
 			}
 			pending = nil
 		}
 	}
 	return inputs
+}
+
+// c13ReplInput feeds one input to repl.EvalOne on s; a failing input gets the resource limits that make it fail fast.
+func c13ReplInput(s *eval.State, buf *bytes.Buffer, in c13In) ReplObs {
+	opt := RunOpt{}
+	depth := s.MaxDepth
+	switch in.Fail {
+	case "panic":
+		s.MaxDepth = c13PanicDepth
+	case "timeout":
+		opt.Timeout = c13FailTimeout
+	}
+	r := replOne(s, buf, in.Src, opt, false)
+	s.MaxDepth = depth
+	return r
+}
+
+// c13History is runHistory with per-input limits for the failing inputs.
+func c13History(ins []c13In) []inObs {
+	s, buf := newState(RunOpt{})
+	var res []inObs
+	for _, in := range ins {
+		r := c13ReplInput(s, buf, in)
+		o := inObs{Out: r.Out, Err: len(r.Errs) > 0 || r.Panicked}
+		if len(r.Errs) > 0 {
+			o.Val = errHead(r.Errs[0])
+		}
+		if r.Panicked {
+			o.Val = "panic: " + o.Val
+		}
+		res = append(res, o)
+	}
+	return res
 }
 
 // ---------------------------------------------------------------------------------- dumps
@@ -270,8 +342,8 @@ func c13NormObs(o []inObs) []inObs {
 func c13Run(cs c13Case, withEval bool) (res c13Real) {
 	ops := cs.Ops
 	last := ops[len(ops)-1]
-	macroIn := c13Inputs(ops, cs.Layout, true)
-	handIn := c13Inputs(ops, cs.Layout, false)
+	macroIn := c13Ins(ops, cs.Layout, true)
+	handIn := c13Ins(ops, cs.Layout, false)
 
 	// 0. generator self-check: the rendered sources parse to the intended trees
 	for _, op := range ops {
@@ -294,15 +366,21 @@ func c13Run(cs c13Case, withEval bool) (res c13Real) {
 	// 1. macro stage of every input on one persistent state (prelude evaluated, programs evaluated in between)
 	s, buf := newState(RunOpt{})
 	cancel := s.SetContext(context.Background(), 10*time.Second)
-	defer cancel()
+	defer func() { cancel() }()
 	if p, errs := parseFile(c13Prelude); len(errs) == 0 {
 		_ = c13Eval(s, p)
 	}
 	var e1 c13Exp
 	for i, in := range macroIn {
-		e1 = c13Expand(s, buf, in)
+		if in.Fail != "" { // an unrelated failing input goes through repl.EvalOne (which recovers panics and resets the state)
+			_ = c13ReplInput(s, buf, in)
+			cancel()
+			cancel = s.SetContext(context.Background(), 10*time.Second)
+			continue
+		}
+		e1 = c13Expand(s, buf, in.Src)
 		if len(e1.ParseErrs) > 0 {
-			res.Skip = fmt.Sprintf("macro input does not parse: %v: %q", e1.ParseErrs, in)
+			res.Skip = fmt.Sprintf("macro input does not parse: %v: %q", e1.ParseErrs, in.Src)
 			return res
 		}
 		if e1.Panic != "" || i == len(macroIn)-1 {
@@ -365,11 +443,9 @@ func c13Run(cs c13Case, withEval bool) (res c13Real) {
 	}
 
 	// 4. (c, e) repl.EvalOne of the macro session vs the hand-substituted session on fresh states
-	mi := append(append([]string{c13Prelude}, macroIn...), c13Probe)
-	hi := append(append([]string{c13Prelude}, handIn...), c13Probe)
-	mo, _ := runHistory(mi, RunOpt{})
-	ho, _ := runHistory(hi, RunOpt{})
-	res.MacroObs, res.HandObs = c13NormObs(mo), c13NormObs(ho)
+	mi := append(append([]c13In{{Src: c13Prelude}}, macroIn...), c13In{Src: c13Probe})
+	hi := append(append([]c13In{{Src: c13Prelude}}, handIn...), c13In{Src: c13Probe})
+	res.MacroObs, res.HandObs = c13NormObs(c13History(mi)), c13NormObs(c13History(hi))
 	return res
 }
 
@@ -466,7 +542,7 @@ func c13Cfg(dev string, depth2 bool, stride, offset, coreSites, maxOps int, emit
 	if trace {
 		return s + "INIT TInit\nNEXT TNext\n"
 	}
-	return s + "INIT Init\nNEXT Next\nINVARIANTS Independent MacroFreeFixed ArityError ArgsFirst OracleRecorded\nPROPERTY StoreUnchanged\n"
+	return s + "INIT Init\nNEXT Next\nINVARIANTS Independent MacroFreeFixed ArityError ArgsFirst OracleRecorded RedefDiscriminates FailKeepsMacros\nPROPERTY StoreUnchanged\n"
 }
 
 type c13Verdict struct {
@@ -498,36 +574,61 @@ func c13Defs(ops []c13Op) []any {
 
 func c13Validate(c *Ctx, recs []c13TraceRec) (map[int]c13Verdict, error) {
 	res := map[int]c13Verdict{}
-	const per = 6000
+	const per = 4000
+	var mu sync.Mutex
+	var wg sync.WaitGroup
+	var firstErr error
+	sem := make(chan struct{}, 4) // JVMs only: no grol code runs in these goroutines
 	for lo := 0; lo < len(recs); lo += per {
 		hi := min(lo+per, len(recs))
-		var buf bytes.Buffer
-		enc := json.NewEncoder(&buf)
-		enc.SetEscapeHTML(false)
-		for _, r := range recs[lo:hi] {
-			_ = enc.Encode(J{"id": r.ID, "defs": r.Defs, "prog": r.Prog, "real": r.Real})
-		}
-		r, err := c.TLC(TLCOpt{Spec: "Macro_Trace", Cfg: c13Cfg("{}", false, 1, 0, 0, 1, false, true), Workers: 1,
-			Files: map[string][]byte{"macro_trace.ndjson": buf.Bytes()}})
-		if err != nil {
-			return nil, err
-		}
-		n := 0
-		err = ReadLines(r.Emitted, func(line []byte) error {
-			var v c13Verdict
-			if err := json.Unmarshal(line, &v); err != nil {
-				return err
+		wg.Add(1)
+		go func(batch []c13TraceRec) {
+			defer wg.Done()
+			sem <- struct{}{}
+			defer func() { <-sem }()
+			vs, err := c13ValidateBatch(c, batch)
+			mu.Lock()
+			defer mu.Unlock()
+			if err != nil && firstErr == nil {
+				firstErr = err
 			}
-			res[v.ID] = v
-			n++
-			return nil
-		})
-		if err != nil {
-			return nil, err
+			for id, v := range vs {
+				res[id] = v
+			}
+		}(recs[lo:hi])
+	}
+	wg.Wait()
+	return res, firstErr
+}
+
+func c13ValidateBatch(c *Ctx, recs []c13TraceRec) (map[int]c13Verdict, error) {
+	res := map[int]c13Verdict{}
+	var buf bytes.Buffer
+	enc := json.NewEncoder(&buf)
+	enc.SetEscapeHTML(false)
+	for _, r := range recs {
+		_ = enc.Encode(J{"id": r.ID, "defs": r.Defs, "prog": r.Prog, "real": r.Real})
+	}
+	r, err := c.TLC(TLCOpt{Spec: "Macro_Trace", Cfg: c13Cfg("{}", false, 1, 0, 0, 1, false, true), Workers: 1,
+		Files: map[string][]byte{"macro_trace.ndjson": buf.Bytes()}})
+	if err != nil {
+		return nil, err
+	}
+	n := 0
+	err = ReadLines(r.Emitted, func(line []byte) error {
+		var v c13Verdict
+		if err := json.Unmarshal(line, &v); err != nil {
+			return err
 		}
-		if n != hi-lo {
-			return nil, fmt.Errorf("Macro_Trace emitted %d verdicts for %d cases", n, hi-lo)
-		}
+		res[v.ID] = v
+		n++
+		return nil
+	})
+	if err != nil {
+		return nil, err
+	}
+	if n != len(recs) {
+		return nil, fmt.Errorf("Macro_Trace emitted %d verdicts for %d cases", n, len(recs))
 	}
 	return res, nil
 }
@@ -606,6 +707,8 @@ var c13Probes = []struct{ what, src string }{
 	{"unquote outside quote", "x = 1; unquote(x)"},
 	{"unquote of a non-parameter expression that yields an integer (value-typed ast.IntegerLiteral in the tree)", "m = macro() { quote(unquote(1) + 2) }; println(m())"},
 	{"unquote of a computed non-parameter expression (was `panic: max depth 0 reached` in the bare macro state before /repo 5d91143)", "m = macro() { quote(unquote(1 + 2) * 2) }; println(m())"},
+	{"unquote of a computed boolean (value-typed ast.Boolean in the tree)", "m = macro() { quote(!unquote(1 < 2)) }; println(m())"},
+	{"unquote of a computed integer in a plain quote, evaluated later through a macro parameter", "k = macro(q) { quote(unquote(q)) }; println(k(2 + 3))"},
 	{"unquote of a string / float / array value (a nil hole in the tree before /repo 9ce7d6a)", "m = macro() { quote(unquote(\"s\")) }; m()"},
 	{"macro named like an extension function is silently not defined", "sin = macro(a) { quote(unquote(a) + 1) }; sin(2)"},
 	{"re-definition of a macro with an all-caps (constant) name", "MAC = macro(a) { quote(unquote(a) + 100) }; println(MAC(1)); MAC = macro(a) { quote(unquote(a) + 200) }; println(MAC(1))"},
@@ -636,20 +739,49 @@ func checkC13(c *Ctx) {
 	c.Assume("the hand-substituted program is the expected tree of Macro.tla rendered to source by the harness renderer; a case whose rendering does not parse back to the intended tree is skipped and counted")
 	c.Assume("the macro store is observed through behaviour (expanding the same call site again), eval.State does not export it")
 
-	// 1. design level: the rewriter that substitutes into the stored template (issue #223) violates the properties
-	r, err := c.TLC(TLCOpt{Spec: "Macro", Cfg: c13Cfg(`{"InPlaceTemplate"}`, false, 97, 0, 1, 3, false, false), Workers: 4, AllowError: true})
-	if err != nil {
-		c.Infra(err)
-		return
+	// 1. design level (runs beside the GEN run, JVMs only): the rewriter that substitutes into the stored template
+	//    (issue #223) violates Independent / StoreUnchanged, and a state reset that drops the macro store after a
+	//    recovered panic violates StoreUnchanged
+	type sab struct {
+		dev  string
+		want []string
+		r    *TLCResult
+		err  error
 	}
-	if r.InvViolated != "Independent" && r.InvViolated != "StoreUnchanged" {
-		c.Infra(fmt.Errorf("Macro.tla with Deviation={InPlaceTemplate} did not violate Independent/StoreUnchanged: %q %s", r.InvViolated, r.ErrText))
-		return
+	sabs := []*sab{
+		{dev: `{"InPlaceTemplate"}`, want: []string{"Independent", "StoreUnchanged"}},
+		{dev: `{"ResetDropsMacros"}`, want: []string{"StoreUnchanged"}},
 	}
-	c.Cov("design_counterexample", "Deviation={InPlaceTemplate} violates "+r.InvViolated)
+	var sabWG sync.WaitGroup
+	for _, sb := range sabs {
+		sabWG.Add(1)
+		go func(sb *sab) {
+			defer sabWG.Done()
+			sb.r, sb.err = c.TLC(TLCOpt{Spec: "Macro", Cfg: c13Cfg(sb.dev, false, 997, 0, 1, 3, false, false), Workers: 2, AllowError: true})
+		}(sb)
+	}
+	sabDone := func() bool {
+		sabWG.Wait()
+		for _, sb := range sabs {
+			if sb.err != nil {
+				c.Infra(sb.err)
+				return false
+			}
+			ok := false
+			for _, w := range sb.want {
+				ok = ok || sb.r.InvViolated == w
+			}
+			if !ok {
+				c.Infra(fmt.Errorf("Macro.tla with Deviation=%s did not violate %v: %q %s", sb.dev, sb.want, sb.r.InvViolated, sb.r.ErrText))
+				return false
+			}
+			c.Cov("design_counterexample "+sb.dev, "violates "+sb.r.InvViolated)
+		}
+		return true
+	}
 
 	// 2. MC + GEN
-	stride, coreSites, maxOps, depth2 := 53, 1, 3, false
+	stride, coreSites, maxOps, depth2 := 67, 1, 3, false
 	if c.Thorough() {
 		stride, coreSites, maxOps, depth2 = 29, 28, 4, true
 	}
@@ -657,7 +789,10 @@ func checkC13(c *Ctx) {
 	if offset < 0 {
 		offset = -offset
 	}
-	r, err = c.TLC(TLCOpt{Spec: "Macro", Cfg: c13Cfg("{}", depth2, stride, offset, coreSites, maxOps, true, false), Workers: 8})
+	r, err := c.TLC(TLCOpt{Spec: "Macro", Cfg: c13Cfg("{}", depth2, stride, offset, coreSites, maxOps, true, false), Workers: 8})
+	if !sabDone() {
+		return
+	}
 	if err != nil {
 		c.Infra(err)
 		return
@@ -692,7 +827,7 @@ func checkC13(c *Ctx) {
 		id := len(cases)
 		layout := (id + int(c.Seed)) % 2
 		cases = append(cases, c13Case{ID: id, Ops: g.H, Layout: layout})
-		if last.Mode == "small" { // sessions with several inputs: both layouts
+		if last.Mode == "small" || last.Mode == "redef" { // sessions with several inputs: both layouts
 			cases = append(cases, c13Case{ID: id + 1, Ops: g.H, Layout: 1 - layout})
 		}
 		return nil
@@ -710,6 +845,7 @@ func checkC13(c *Ctx) {
 	c.Note("Macro GEN: %d states, %d sessions emitted, %d (session, layout) cases; stride=%d offset=%d core sites=%d depth2=%v maxops=%d",
 		r.Distinct, sessions, len(cases), stride, offset, coreSites, depth2, maxOps)
 
+	tGen := time.Since(c.Start)
 	// 3. real code
 	log.SetOutput(io.Discard) // the interpreter logs the panics / critical errors some inputs provoke; they are observed through the API
 	defer log.SetOutput(os.Stderr)
@@ -740,8 +876,25 @@ func checkC13(c *Ctx) {
 		return
 	}
 
+	tReal := time.Since(c.Start)
 	// 4. TV: the expanded tree is the tree Macro!Subst predicts
+	//    (Equiv_Trace judges the evaluation of every case beside it; its verdicts are used for the cases whose tree is right)
+	var allEcs []equivCase
+	for i := range cases {
+		if reals[i].Skip == "" && reals[i].Exp.Panic == "" {
+			allEcs = append(allEcs, equivCase{ID: i, A: reals[i].MacroObs, B: reals[i].HandObs})
+		}
+	}
+	var ev map[int]equivVerdict
+	var evErr error
+	var evWG sync.WaitGroup
+	evWG.Add(1)
+	go func() {
+		defer evWG.Done()
+		ev, evErr = equivValidate(c, allEcs)
+	}()
 	verdicts, err := c13Validate(c, recs)
+	evWG.Wait()
 	if err != nil {
 		c.Infra(err)
 		return
@@ -805,10 +958,10 @@ func checkC13(c *Ctx) {
 	c.Cov("evaluator_panics_seen", panics)
 	c.Cov("c02_roundtrip_losses_shared_with_hand_substituted", c02)
 
+	tTV := time.Since(c.Start)
 	// 5. evaluation: macro session vs hand-substituted session (Equiv_Trace.tla decides)
-	ev, err := equivValidate(c, ecs)
-	if err != nil {
-		c.Infra(err)
+	if evErr != nil {
+		c.Infra(evErr)
 		return
 	}
 	for _, ec := range ecs {
@@ -824,6 +977,8 @@ func checkC13(c *Ctx) {
 		c.Fail(c13SigEval, describeDiff(ec.A, ec.B, v.At), c13Replay(cases[ec.ID]))
 	}
 
+	c.Note("phase times (s since start): TLC sabotage + MC + GEN %.1f, real code %.1f, Macro_Trace %.1f, Equiv_Trace %.1f",
+		tGen.Seconds(), tReal.Seconds(), tTV.Seconds(), time.Since(c.Start).Seconds())
 	// 6. pinned reproducers of the listed findings (always run) and probes outside the statement
 	for _, p := range c13PinnedCases {
 		ok, msg, _, _ := c13RunPinned(p)
